@@ -244,6 +244,29 @@ let c19_run c =
          else if helper = "xml" && vk mod 6 <> 2 then L [A "dec"; A "na"] else L [A "dec"; A "ok"] in
        out r (fin r) body (int_of_nat r.nerr) []
      | h -> failwith ("c19: bad helper " ^ h))
+  | L [A "rdr"; A name; vk; preset; encj; encx] ->
+    (* the renderers of pkg/render used on their own, on a plain ResponseWriter *)
+    let vk = int vk and preset = preset_of preset in
+    let sbytes = bytes_of (List.nth c19_strs (vk mod 8)) in
+    let r0 = rsp_init preset [] in
+    let out r body err = L [A "rdr"; sct r.ctype; body; sbool err] in
+    let blob ct = let r = render_blob ct sbytes r0 in out r (sstr (log_body (ensure r.rw))) false in
+    (match name with
+     | "text" | "plain" | "textbytes" -> blob ct_text
+     | "html" | "htmlbytes" -> blob ct_html
+     | "blob" -> blob (str_of_ascii "application/x-blob")
+     | "json" | "jsonindented" | "jsonp" | "xml" | "xmlpretty" ->
+       let isx = (name = "xml" || name = "xmlpretty") in
+       let ok = if isx then bool encx else bool encj in
+       let enc _ = if ok then Some [n_of_int 120] else None in
+       let (r, good) = (match name with
+           | "json" | "jsonindented" -> render_json enc ()
+           | "jsonp" -> render_jsonp enc (str_of_ascii "cb") ()
+           | _ -> render_xml enc [n_of_int 60] ()) r0 in
+       let body = if not good then L [A "enc-error"]
+         else if isx && vk mod 6 <> 2 then L [A "dec"; A "na"] else L [A "dec"; A "ok"] in
+       out r body (not good)
+     | h -> failwith ("c19: bad renderer " ^ h))
   | L [A "auto"; acc; vk; preset; encj; encx] ->
     let vk = int vk and preset = preset_of preset in
     (* httpreq.ParseAccept: split at ',', keep the text before ';', trim, drop empties *)
@@ -273,6 +296,9 @@ let c19_judge c obs =
        "bad " ^ (if to_string s1 <> to_string s2 then "status" else if to_string c1 <> to_string c2 then "content-type"
                  else if to_string b1 <> to_string b2 then "body" else if to_string n1 <> to_string n2 then "error-reporting" else "location") ^ " helper=" ^ h
      | L (A "h" :: A h :: _), _, _ -> "bad helper-panics helper=" ^ h
+     | L (A "rdr" :: A h :: _), L [_; c1; b1; _], L [_; c2; b2; _] ->
+       "bad " ^ (if to_string c1 <> to_string c2 then "content-type" else if to_string b1 <> to_string b2 then "body" else "error-reporting") ^ " renderer=" ^ h
+     | L (A "rdr" :: A h :: _), _, _ -> "bad renderer-panics renderer=" ^ h
      | _ -> "bad negotiation") ^ " expected=" ^ to_string e
 
 (* ---------------- C03 ---------------- *)
